@@ -52,12 +52,6 @@ func ViaYAML(x any) (any, error) {
 	return out, nil
 }
 
-// OptValue is Opt(Value).
-type OptValue struct {
-	Some bool   `json:"some"`
-	V    *Value `json:"v"`
-}
-
 // TransportCase is one row of the transport bind vector: a wire value and what the
 // specification's CBOR / JSON / YAML transforms predict.
 type TransportCase struct {
